@@ -284,6 +284,23 @@ fn extra_cases() -> Vec<Case> {
             }
         }
     }
+    // entries collected from an iteration stay what they were; both read routes give the same
+    // property, also as the receiver of a call
+    for lit in ["{}", "{\"a\": 1}", "{\"b\": [2], \"a\": 1}", "{\"c\": 3, \"a\": 1, \"b\": 2}"] {
+        v.push(Case::new(
+            format!("o := {}\nes := []\nfor kv in o {{\nes += [kv]\n}}\nprint(es)\np := {{}}\nfor kv in es {{\np[kv[0]] = kv[1]\n}}\nprint(p == o)\nks := []\nfor [k, _] in o {{\nks += [k]\n}}\nprint(ks)\n", lit),
+            601,
+            format!("entries of {} collected from an iteration", lit),
+        ));
+    }
+    v.push(Case::new(
+        "base := {\"id\": \"B\", \"name\": fn () {\nreturn this.id\n}}\nd := {\"id\": \"D\", \"name\": base.name}\nprint(d.name())\nprint(d[\"name\"]())\nk := \"name\"\nprint(d[k]())\ne := {\"id\": \"E\"}\ne[\"name\"] = d[\"name\"]\nprint(e.name())\nprint(e[\"name\"]())\n".to_string(),
+        601,
+        "a function property read through . and through []".to_string(),
+    ));
+    for lit in ["{\"a\": 1, a}", "{a, \"a\": 1}", "{d.., a}", "{a, d..}", "{d.., a, \"a\": 3}", "{\"a\": 1, a, d..}"] {
+        v.push(Case::new(format!("a := 2\nd := {{\"a\": 9, \"z\": 0}}\nprint({})\n", lit), 601, format!("shorthand against other entries {}", lit)));
+    }
     // interpolated literals as names in every naming position
     for pos in [
         "o := {$\"k${x}\": 1}\nprint(o)\n",
